@@ -115,6 +115,10 @@ def build_harness(name, race=False, timeout=1200):
         cmd.append("-race")
     cmd.append("./" + ZZ + "/" + name)
     rc, txt = sh(cmd, cwd=REPO, env=GOENV, timeout=timeout)
+    if rc != 0:
+        # a compile error is deterministic; anything transient (I/O, memory pressure) is not
+        time.sleep(2)
+        rc, txt = sh(cmd, cwd=REPO, env=GOENV, timeout=timeout)
     return rc, txt, out
 
 
